@@ -32,6 +32,12 @@ FIXED_PROGRAMS = [
     # transformer-partial-effects: the first leaf is removed, the second one sits in a required field
     [_O("create", "LLeaf", mode="plain"), _O("create", "LLeaf", mode="plain"), _O("create", "LUnary", kids=[2], mode="plain"),
      _O("create", "LMany", kids=[1, 3], mode="plain"), _O("texec", a=4, atom=0, mode="drop")],
+    # visitor-partial-effects: a detached receiver whose attached first child is replaced by its clone before the second raises
+    [_O("create", "LLeaf", atom=0, mode="detached"), _O("create", "LLeaf", atom=1, mode="plain"),
+     _O("create", "LMany", kids=[2, 1], mode="detached"), _O("tvisit", a=3, atom=0, mode="boom")],
+    # transformer-partial-effects with a refused id hand-over (the leaf sits at two positions of a detached receiver)
+    [_O("create", "LLeaf", atom=0, mode="detached"), _O("create", "LMany", kids=[1], mode="plain"),
+     _O("create", "LMany", kids=[1, 2], mode="detached"), _O("texec", a=3, atom=0, mode="fresh")],
     # partial-attach-effects
     [_O("create", "LLeaf", mode="plain"), _O("create", "LUnary", kids=[1], mode="plain"),
      _O("create", "LMany", kids=[2, 1], mode="plain")],
@@ -518,6 +524,11 @@ def run_program(W, prog, sink: dict, strays: list, states: dict | None = None, r
             R.nodes.append(ret)         # None when the operation was rejected: the handle stays unusable
             if ret is not None:
                 R.name_below(ret, f"h{len(R.nodes)}")
+        # nodes made by the operation that are not below a returned node (an operation that failed half-way) are called
+        # after their first path from the first handle that reaches them (Legacy.tla: RenameBelow / FromHandles)
+        for i, o in enumerate(R.nodes):
+            if o is not None:
+                R.name_below(o, f"h{i + 1}")
         try:
             post = R.alpha()
         except RecursionError:
